@@ -201,6 +201,13 @@ mtbl_reader_init_fd(int fd, const struct mtbl_reader_options *opt)
 			return NULL;
 		}
 	}
+	/* The index block must end before the metadata block begins. */
+	uint64_t index_avail = metadata_offset - r->m.index_block_offset;
+	uint64_t index_header = index_len_len + sizeof(uint32_t);
+	if (index_header > index_avail || index_len > index_avail - index_header) {
+		mtbl_reader_destroy(&r);
+		return (NULL);
+	}
 	index_data = r->data + r->m.index_block_offset + index_len_len + sizeof(uint32_t);
 	if (r->opt.verify_checksums) {
 		uint32_t index_crc, calc_crc;
